@@ -18,7 +18,8 @@ LEVEL = "exploration"
 EXHAUSTIVE = True
 RULE = ("E1: (a) 9 schemes x 28 hosts x 9 ports x {plain, userinfo, fragment} with two paths; (b) path lists of length <= 3 (4 in the thorough tier) and query "
         "lists of length <= 2 over a 23-segment alphabet (reserved characters, empty, dots, control characters below U+0010 followed by a hex digit, DEL, non-ASCII up to astral planes, literal percent text), given "
-        "percent-encoded in URI text and raw in options, for three host kinds; (c) verbatim bad escapes; (d) every string of length <= 3 (5 in the thorough tier) "
+        "percent-encoded in URI text and raw in options, for three host kinds; (b2) sub-delims, ':' and '@' standing unescaped in path segments and query items; the "
+        "destination (scheme, host, port) of every accepted authority; (c) verbatim bad escapes; (d) every string of length <= 3 (5 in the thorough tier) "
         "over {c o a p : / ? # @ [ ] % .} alone and behind 'coap:', 'coap://', 'coap://h', 'coap://h:', 'coaps+ws://[', 'coap://][', 'coap://@[', 'coap://[::1]'; (e) host/port split-join pairs. "
         "distinct = distinct (family, outcome class, shape)")
 ASSUMPTIONS = [
@@ -183,7 +184,60 @@ def fam_authority(res):
                                                           {"hostinfo": hi, "uri_host": m.opt.uri_host}, "message.py:UndecidedRemote", dict(case, uri=uri), key="zone"))
                             continue
                         exp = {"host": hexp, "path": pexp, "query": ("k=v",) if path else (), "proxy": None}
-                        check_text(res, "authority", uri, "ok", case, exp)
+                        m = check_text(res, "authority", uri, "ok", case, exp)
+                        if m is not None:
+                            check_destination(res, m, scheme, htext, ptext, dict(case, uri=uri))
+
+
+DEFAULT_PORT = {"coap": 5683, "coaps": 5684, "coap+tcp": 5683, "coaps+tcp": 5684, "coap+ws": 80, "coaps+ws": 443}
+
+
+def check_destination(res, m, scheme, htext, ptext, case):
+    """Section 6.4 step 7 / the statement's "the port kept with the destination": the scheme, the host and the port the URI names stay with
+    the message's destination.  Dropping (or spelling out) exactly the scheme's own default port is the same destination."""
+    res.evaluations += 1
+    if not isinstance(m.remote, UndecidedRemote):
+        res.violate(Violation("destination", "an undecided remote carrying scheme and authority", repr(m.remote), "message.py:set_request_uri", case, key="dest:type"))
+        return
+    want_port = int(ptext) if ptext else None
+    got = norm_hostinfo(m.remote.hostinfo)
+    want_host = norm_hostinfo(htext)[0] if norm_hostinfo(htext) and isinstance(norm_hostinfo(htext), tuple) else htext
+    default = DEFAULT_PORT[scheme.lower()]
+    ok_port = isinstance(got, tuple) and (got[1] == want_port or {got[1], want_port} == {None, default})
+    ok_host = isinstance(got, tuple) and _same_host(got[0], want_host)
+    if m.remote.scheme != scheme.lower() or not ok_port or not ok_host:
+        res.violate(Violation("destination", {"scheme": scheme.lower(), "host": want_host, "port": want_port},
+                              {"scheme": m.remote.scheme, "hostinfo": m.remote.hostinfo}, "message.py:UndecidedRemote", case,
+                              key="dest:" + ("scheme" if m.remote.scheme != scheme.lower() else "port" if not ok_port else "host")))
+
+
+def _same_host(a, b):
+    """Names compare as normalised text, IP literals as addresses (any spelling of the same address is the same host)."""
+    import ipaddress
+    if a == b:
+        return True
+    try:
+        za, zb = (a.split("%", 1) + [""])[:2], (b.split("%", 1) + [""])[:2]
+        return ipaddress.ip_address(za[0]) == ipaddress.ip_address(zb[0]) and za[1] == zb[1]
+    except (ValueError, AttributeError):
+        return False
+
+
+# characters that may stand unescaped in a path segment / query item (RFC 3986 pchar: sub-delims, ':' and '@'; in a query also '/' and '?')
+VERBATIM = ["a;b", ";", "a;b=c", "p;x;y", "a,b", "a!b", "a$b", "a'b", "(a)", "a*b", "a+b", "a=b", "a:b", "a@b", ":", "@", "~a", "-._~"]
+
+
+def fam_verbatim(res):
+    for hostpart, hexp in (("example.com", "example.com"), ("[2001:db8::1]", None)):
+        for scheme in ("coap", "coaps", "coap+tcp", "coaps+ws"):
+            for v in VERBATIM:
+                for path in ((v,), ("x", v), (v, "x"), (v, v)):
+                    for q in ((), (v,), ("k=" + v,), (v, "a/b?c")):
+                        if scheme != "coap" and (len(path) > 1 and path[0] != "x" or len(q) > 1):
+                            continue
+                        uri = scheme + "://" + hostpart + "".join("/" + s_ for s_ in path) + ("?" + "&".join(q) if q else "")
+                        case = {"family": "verbatim", "path": path, "query": q, "host": hostpart, "shape": ("verbatim", v, len(path), len(q))}
+                        check_text(res, "verbatim", uri, "ok", case, {"host": hexp, "path": path, "query": q})
 
 
 def fam_segments(res, first, tier="quick"):
@@ -293,6 +347,9 @@ def job(arg):
     elif kind == "strings":
         fam_strings(res, item, tier)
         res.sample({"uri_string": item + "?#@"})
+    elif kind == "verbatim":
+        fam_verbatim(res)
+        res.sample({"uri": "coap://example.com/x/a;b=c?k=a;b", "expected_path": ["x", "a;b=c"], "expected_query": ["k=a;b"]})
     else:
         fam_badescapes(res)
         fam_hostport(res)
@@ -300,7 +357,7 @@ def job(arg):
 
 
 def run(tier, seed, jobs):
-    work = [("authority", None, tier), ("misc", None, tier)]
+    work = [("authority", None, tier), ("misc", None, tier), ("verbatim", None, tier)]
     work += [("segments", s, tier) for s in SEGS]
     work += [("strings", p, tier) for p in ("", "coap:", "coap://", "coap://h", "coaps+ws://[", "coap://h:", "coap://][", "coap://@[", "coap://[::1]")]
     res = core.prun(job, work, jobs)
@@ -312,7 +369,9 @@ def replay(case, scenario, seed):
     res = Result()
     if "uri" in case:
         print("     uri:", case["uri"])
-        check_text(res, case.get("family", "replay"), case["uri"], "either" if case.get("family") in ("strings",) else "ok", {k: v for k, v in case.items() if k != "uri"})
+        m = check_text(res, case.get("family", "replay"), case["uri"], "either" if case.get("family") in ("strings",) else "ok", {k: v for k, v in case.items() if k != "uri"})
+        if m is not None and case.get("family") == "authority" and case.get("scheme"):
+            check_destination(res, m, case["scheme"], case["host"], case["port"], case)
         kind, val = outcome_of(lambda: decompose(case["uri"]))
         print("     outcome:", kind, val if kind != "ok" else view(val))
     elif case.get("family") == "hostport":
